@@ -20,7 +20,11 @@
 (***************************************************************************)
 EXTENDS Integers, Sequences, FiniteSets, TLC
 
-CONSTANTS Syms, MaxLen
+CONSTANTS Syms, MaxLen,
+          Widths,        \* operand widths in bytes of the bits-equal kind (subset of 1..8)
+          Fills, BV,     \* lattice of 64-bit operands: every byte = a fill byte except one byte taken from BV
+          AIdx,          \* byte indexes at which the second operand of a generated pair carries its BV byte
+          MV             \* lattice of masks: all bytes 255 except one taken from MV, or all bytes 0 except one 255
 
 Strs == UNION { [1..k -> Syms] : k \in 0..MaxLen }
 Min(a, b) == IF a < b THEN a ELSE b
@@ -45,12 +49,46 @@ Verdict(kind, e, a, enull, anull) ==
     ELSE [haspos |-> TRUE, pos |-> IF HasDiff(e, a) THEN FirstDiff(e, a) ELSE 0, free |-> ~HasDiff(e, a)]
 
 -----------------------------------------------------------------------------
+\* bits-equal kind.  A value: [1..8 -> 0..255], index 1 = most significant byte.  Symbols: 0, 1, X (don't care).
+X == 2
+BitAt(b, k) == (b \div (2 ^ (8 - k))) % 2                        \* k = 1 is the most significant bit of byte b
+ByteIdx(w, p) == (8 - w) + ((p - 1) \div 8) + 1                   \* position p = 1..8w of a w-byte operand, most significant first
+BitIdx(p) == ((p - 1) % 8) + 1
+ValBit(v, w, p) == BitAt(v[ByteIdx(w, p)], BitIdx(p))
+\* the design: what the field of operand v under mask m shows
+Shown(v, m, w) == [p \in 1..(8 * w) |-> IF ValBit(m, w, p) = 1 THEN ValBit(v, w, p) ELSE X]
+\* what the statement demands of an observed field (sequence of symbols, blanks removed)
+ShowsOK(obs, v, m, w) ==
+    /\ Len(obs) = 8 * w
+    /\ \A p \in 1..(8 * w) : IF ValBit(m, w, p) = 1 THEN obs[p] = ValBit(v, w, p) ELSE obs[p] \in {X, ValBit(v, w, p)}
+AndByte(x, y) == LET RECURSIVE S(_)
+                     S(k) == IF k = 0 THEN 0 ELSE S(k - 1) + BitAt(x, k) * BitAt(y, k) * (2 ^ (8 - k)) IN S(8)
+And8(v, m) == [j \in 1..8 |-> AndByte(v[j], m[j])]
+Low(v, w) == SubSeq(v, 9 - w, 8)
+Place(f, i, x) == [j \in 1..8 |-> IF j = i THEN x ELSE f]
+Vals == { Place(f, i, x) : f \in Fills, i \in 1..8, x \in BV }
+AVals == { Place(f, i, x) : f \in Fills, i \in AIdx, x \in BV }
+Masks == { Place(255, i, z) : i \in 1..8, z \in MV } \cup { Place(0, i, 255) : i \in 1..8 }
+BitsVerdict(e, a, m, w) == [eb |-> Shown(e, m, w), ab |-> Shown(a, m, w)]
+
+-----------------------------------------------------------------------------
 \* leg 1: the definitions are what they should be, on every pair of the lattice (a one-state specification)
 VARIABLE u
 Init == u = 0
 Next == UNCHANGED u
 Spec == Init /\ [][Next]_u
-Lemmas == \A a \in Strs, b \in Strs :
+BitLemmas ==
+    /\ \A x \in 0..255 : /\ AndByte(x, 255) = x /\ AndByte(x, 0) = 0
+                          /\ x = LET RECURSIVE S(_)
+                                     S(k) == IF k = 0 THEN 0 ELSE 2 * S(k - 1) + BitAt(x, k) IN S(8)     \* the 8 bits are the byte
+    /\ \A w \in Widths, v1 \in Vals, v2 \in AVals, m \in Masks :
+          /\ Len(Shown(v1, m, w)) = 8 * w
+          /\ ShowsOK(Shown(v1, m, w), v1, m, w)
+          \* the fields of two operands coincide exactly when the operands (low w bytes) agree under the mask:
+          \* operands that differ in a compared bit are never printed alike
+          /\ (Shown(v1, m, w) = Shown(v2, m, w)) <=> (Low(And8(v1, m), w) = Low(And8(v2, m), w))
+          /\ (Low(And8(v1, m), w) # Low(And8(v2, m), w)) => ~ShowsOK(Shown(v1, m, w), v2, m, w)
+Lemmas == BitLemmas /\ \A a \in Strs, b \in Strs :
              /\ HasDiff(a, b) <=> a # b
              /\ a # b => /\ FirstDiff(a, b) = FirstDiffRec(a, b)
                          /\ FirstDiff(a, b) = FirstDiff(b, a)
